@@ -108,6 +108,14 @@ SOURCE_TIES = {
 }
 
 
+# Tie lemmas whose function lies outside what a property speaks about: a mismatch confined to them is recorded in the evidence
+# but does not make that property's check report (the property's own theorems do not go through those functions).
+IRRELEVANT_TIES = {
+    # C04 is about counts only: the mass computation and its cache are C02's / C06's business
+    "C04": {"comp": r"^[vm]_(calc_mass|mass|fmass|has_mass_cached)$"},
+}
+
+
 TIES_MODE = {"gen_peak.py", "gen_espec.py", "gen_formula.py", "gen_comp.py", "gen_render.py", "gen_cbind.py", "gen_brain.py"}
 
 
@@ -138,8 +146,13 @@ def source_tie(run, parts=("mz",)):
                     rc3, out3, _ = sh([sys.executable, os.path.join(VERIF, "tools", script), "--ties"], cwd=VERIF, timeout=900)
                     failed = re.findall(r"^tie (\S+): FAILED", out3, re.M)
                     skipped = re.findall(r"^tie (\S+): SKIPPED", out3, re.M)
+                    irr = IRRELEVANT_TIES.get(run.prop, {}).get(k)
+                    outside = [f for f in failed if irr and re.match(irr, f)]
+                    failed = [f for f in failed if f not in outside]
                     status = "mismatch" if failed else "unavailable"
                     detail = ("tie lemmas that no longer hold: %s" % ", ".join(failed)) if failed else ("skipped (outside the subset): %s" % ", ".join(skipped))
+                    if outside:
+                        detail += "; tie lemmas that no longer hold but concern functions outside %s: %s" % (run.prop, ", ".join(outside))
                 else:
                     status = "mismatch"
                     failed = [target]
